@@ -163,11 +163,21 @@ func goCCString(c *credentials.CCache) string {
 	}
 	ver := int(c.Version)
 	var cs []string
+	// the file's 16-bit key / address / authorization-data types are signed (MIT reads them as int16:
+	// -133 is rc4-hmac-old, negative authorization data types are in use): the 32-bit value handed to
+	// the application must be the sign extension of what the file holds
+	notSigned := ""
+	sx16 := func(what string, v int32) uint16 {
+		if int32(int16(uint16(v))) != v {
+			notSigned += fmt.Sprintf(" not-sign-extended:%s=%d", what, v)
+		}
+		return uint16(v)
+	}
 	for _, cr := range c.Credentials {
 		var x ccCred
 		x.client = goPrincTok(reflect.ValueOf(cr).Elem().FieldByName("Client"))
 		x.server = goPrincTok(reflect.ValueOf(cr).Elem().FieldByName("Server"))
-		x.kt = uint16(cr.Key.KeyType)
+		x.kt = sx16("keytype", cr.Key.KeyType)
 		x.key = cr.Key.KeyValue
 		x.t = [4]uint32{uint32(cr.AuthTime.Unix()), uint32(cr.StartTime.Unix()), uint32(cr.EndTime.Unix()), uint32(cr.RenewTill.Unix())}
 		if cr.IsSKey {
@@ -177,16 +187,16 @@ func goCCString(c *credentials.CCache) string {
 			x.flags = binary.BigEndian.Uint32(cr.TicketFlags.Bytes)
 		}
 		for _, a := range cr.Addresses {
-			x.addrs = append(x.addrs, ccTyped{uint16(a.AddrType), a.Address})
+			x.addrs = append(x.addrs, ccTyped{sx16("addrtype", a.AddrType), a.Address})
 		}
 		for _, a := range cr.AuthData {
-			x.ad = append(x.ad, ccTyped{uint16(a.ADType), a.ADData})
+			x.ad = append(x.ad, ccTyped{sx16("adtype", a.ADType), a.ADData})
 		}
 		x.ticket, x.second = cr.Ticket, cr.SecondTicket
 		cs = append(cs, x.tok(2, true))
 	}
 	dp := goPrincTok(reflect.ValueOf(c).Elem().FieldByName("DefaultPrincipal"))
-	return strings.TrimRight(fmt.Sprintf("v=%d hdr=%s princ=%s creds=%s", ver, typedToks(hdr), dp.tok(2), strings.Join(cs, " ")), " ")
+	return strings.TrimRight(fmt.Sprintf("v=%d hdr=%s princ=%s creds=%s", ver, typedToks(hdr), dp.tok(2), strings.Join(cs, " ")), " ") + notSigned
 }
 
 func goCCParse(b []byte) (string, *credentials.CCache) {
